@@ -42,6 +42,10 @@ func ProfileFor(prop, tier string, seed uint64) *Profile {
 		pf.LazyWakeP = 0.3
 	}
 	switch prop {
+	case "C01", "C02", "C03", "C04", "C08", "C13", "C14", "C16", "C17":
+		pf.QuietP = 0.25
+	}
+	switch prop {
 	case "C01":
 		pf.TreeEvery = 0
 		switch {
